@@ -120,6 +120,15 @@ def reset_uuid(start=0):
     _STATE["uuid_counter"] = start
 
 
+def deterministic_ids():
+    """uuid4 -> counter from 0 (kept through uninstall(): replays must see the ids of the symbolic run)"""
+    import efootprint.abstract_modeling_classes.modeling_object as mo
+    if not _STATE.get("orig_uuid4"):
+        _STATE["orig_uuid4"] = mo.uuid.uuid4
+    mo.uuid.uuid4 = _uuid4
+    reset_uuid()
+
+
 def _set(mod, name, value):
     had = hasattr(mod, name)
     old = getattr(mod, name, None)
@@ -263,7 +272,7 @@ STUB_LIST = [
     "explainable_objects.float -> identity on proxies (to_json / value_as_float_list)",
     "np.full -> object array when the fill value is a proxy (time_builders, server_base, storage)",
     "np.maximum/np.minimum on proxy arrays -> element-wise Ite merge (explainable_objects.np_compared_with)",
-    "uuid.uuid4 -> deterministic counter (path replay)",
+    "uuid.uuid4 -> deterministic counter (path replay; kept in the concrete replays so that id-dependent set orders reproduce)",
     "logging disabled",
     "C19 only: `set` shadowed in efootprint modules by a list-backed set whose iteration order is an engine choice",
 ]
